@@ -12,7 +12,7 @@ use std::collections::HashSet;
 use crate::core::cell_info::get_num_children;
 use crate::core::serialization::{
     cell_to_children, cell_to_parent, get_resolution, get_stride, is_first_child,
-    FIRST_HILBERT_RESOLUTION,
+    FIRST_HILBERT_RESOLUTION, HILBERT_START_BIT, REMOVAL_MASK,
 };
 
 /// Expands a set of A5 cells to a target resolution by generating all descendant cells.
@@ -66,6 +66,17 @@ pub fn uncompact(cells: &[u64], target_resolution: i32) -> Result<Vec<u64>, Stri
     Ok(result)
 }
 
+/// Sort key that follows the hierarchy at every resolution: a base cell is placed among its own
+/// quintants (which carry 5 * face + n in the top bits), every other cell keeps its numeric value
+fn hierarchy_key(cell: u64) -> u64 {
+    if get_resolution(cell) == 0 {
+        let face = cell >> HILBERT_START_BIT;
+        ((5 * face) << HILBERT_START_BIT) | (cell & REMOVAL_MASK)
+    } else {
+        cell
+    }
+}
+
 /// Compacts a set of A5 cells by replacing complete groups of sibling cells with their parent cells.
 ///
 /// # Arguments
@@ -83,10 +94,12 @@ pub fn compact(cells: &[u64]) -> Result<Vec<u64>, String> {
     // Single sort and dedup
     let unique_cells: HashSet<u64> = cells.iter().copied().collect();
     let mut current_cells: Vec<u64> = unique_cells.into_iter().collect();
-    current_cells.sort_unstable();
+    // Plain numeric order interleaves base cells (top bits = face) with the quintants of other
+    // faces (top bits = 5 * face + n), which would split sibling groups apart
+    current_cells.sort_unstable_by_key(|&cell| (hierarchy_key(cell), cell));
 
     // Compact until no more changes
-    // No re-sorting needed - parents maintain sorted order!
+    // No re-sorting needed - parents maintain the hierarchy order!
     let mut changed = true;
     while changed {
         changed = false;
